@@ -66,6 +66,12 @@ def run(ctx):
     first_parse = {}
     for line, (kind, g, den, data), a, b in zip(lines, meta, m, im):
         ctx.count('kind:' + kind)
+        if ' c=h' in a and ' c=h' in b:
+            # a body is read with Read::take(n).read_to_end(): how many bytes that pulls from the source beyond the body
+            # depends on std's adaptive read sizes, which the model does not reproduce (it reads exactly n); the number of
+            # bytes consumed from the source is therefore compared only for requests without a body
+            a = a.split(' consumed=')[0]
+            b = b.split(' consumed=')[0]
         if kind in ('gen', 'corpus', 'replay', 'flat'):
             ctx.count('model:' + a.split(' ')[0].split(':')[0])
         if a != b:
@@ -112,7 +118,8 @@ def run(ctx):
     idx = [i for i, l in enumerate(lines) if l.startswith('req_parse')]
     if not thorough:
         idx = idx[::3]
-    ctx.tokio_twin([lines[i] for i in idx], [m[i] for i in idx], 'req-mismatch-tokio')
+    strip_body_consumed = lambda x: x.split(' consumed=')[0] if ' c=h' in x else x
+    ctx.tokio_twin([lines[i] for i in idx], [m[i] for i in idx], 'req-mismatch-tokio', norm=strip_body_consumed)
     for k in (3, len(lines) // 2, len(lines) - 2):
         if 0 <= k < len(lines):
             ctx.sample({'case': lines[k][:300], 'model': m[k][:200], 'impl': im[k][:200]})
